@@ -443,7 +443,8 @@ def retis_cases(ctx):
     rng = ctx.rng
     quick = ctx.quick
     cases = []
-    variants = [("plain", (NEG, 0, 0), (False, True)), ("lm1", (-3, -2, 0), (True, True))]
+    variants = [("plain", (NEG, 0, 0), (False, True)), ("lm1", (-3, -2, 0), (True, True)),
+                ("lm1-noL", (-3, -2, 0), (False, True))]
     i1 = (0, 1, 3)
     mls = [(m0, m1) for m0 in (2, 3, 4, 5, 6) for m1 in (2, 3, 4, 5, 6)]
     bw_lv = (-4, -3, -1, 0, 1)
@@ -478,7 +479,7 @@ def retis_cases(ctx):
                                       "old0": mk_old0([1], a, b), "old1": mk_old1(-1, 1, [4]),
                                       "scripts": [good_bw, mk_script(fw, 400, 1)], "xi": Fraction(1, 2)})
     # random: longer paths, wf moves, caps, vel_rev flags, unpadded (ending) programs, malformed input
-    nrand = 6000 if quick else 120000
+    nrand = 15000 if quick else 200000
     for _ in range(nrand):
         vn, i0, sc = rng.choice(variants)
         if rng.random() < 0.1:
@@ -520,9 +521,10 @@ def quantis_cases(ctx):
     rng = ctx.rng
     quick = ctx.quick
     cases = []
-    variants = [("plain", (NEG, 0, 0), (False, True)), ("lm1", (-3, -2, 0), (True, True))]
+    variants = [("plain", (NEG, 0, 0), (False, True)), ("lm1", (-3, -2, 0), (True, True)),
+                ("lm1-noL", (-3, -2, 0), (False, True))]
     i1 = (0, 1, 3)
-    n = 2500 if quick else 40000
+    n = 5000 if quick else 60000
     for k in range(n):
         vn, i0, sc = rng.choice(variants)
         m0 = rng.choice((3, 4, 5, 6, 7, 8, 9, 2, 1))
@@ -531,9 +533,9 @@ def quantis_cases(ctx):
         if structured:
             npre = rng.randint(1, 3)
             o0 = [1] + [rng.choice((-1, -2, 0)) for _ in range(npre - 1)] + [rng.choice((-1, -1, -2, 0))] + [rng.choice((1, 2, 0))]
-            o1 = [rng.choice((-1, -1, -2, 0))] + [rng.choice((1, 2, 0))] + [rng.choice((1, 2)) for _ in range(rng.randint(0, 2))] + [rng.choice((-1, 4))]
+            o1 = [rng.choice((-1, -1, -2, 0, -4))] + [rng.choice((1, 2, 0))] + [rng.choice((1, 2)) for _ in range(rng.randint(0, 2))] + [rng.choice((-1, 4))]
             A = [rng.choice((1, 1, 1, 2, 0, -1, -4))]
-            B = [rng.choice((1, 1, 1, 2, 0, -1, -4))]
+            B = [rng.choice((1, 1, 1, 2, 0, -1, -4, 4, 4))]
             C = [rng.choice((-1, -2, 0)) for _ in range(rng.randint(0, 4))] + [rng.choice((1, 1, 1, -4, -3))]
             D = [rng.choice((1, 2, 3, 0)) for _ in range(rng.randint(0, 4))] + [rng.choice((-1, 4, 4))]
             pads = (1, 1, -1, 1)
@@ -570,7 +572,7 @@ def xi_grid(p):
     if pacc < 1.0:
         xs.add(math.nextafter(pacc, 2.0))
         xs.add((1.0 + pacc) / 2)
-    return sorted(x for x in xs if 0.0 <= x <= 1.0)
+    return sorted(x for x in xs if 0.0 <= x < 1.0)   # random() never returns 1.0
 
 
 # --------------------------------------------------------------------------- reversible-engine cases
@@ -588,7 +590,7 @@ def det_cases(ctx):
     """old path pairs that are trajectories of the integer leap-frog engine, found by seeded search"""
     rng = ctx.rng
     cases = []
-    want = 400 if ctx.quick else 6000
+    want = 800 if ctx.quick else 8000
     tries = 0
     while len(cases) < want and tries < 200 * want:
         tries += 1
